@@ -452,7 +452,7 @@ def oracle_homogeneity(ctx, tm, qntot, full):
     b = te.dense_of(outm, tm.order)
     ctx.count("oracle")
     ctx.count("homogeneity_checks")
-    ctx.close(b, mu * a, 1e-6, f"H|{sc}|{mode}|evolved-state-not-proportional-to-the-input-amplitude|{start}",
+    ctx.close(b, mu * a, 2e-4 if sc == "tdvp_ps2" else 1e-6, f"H|{sc}|{mode}|evolved-state-not-proportional-to-the-input-amplitude|{start}",
               scale=max(float(np.linalg.norm(mu * a)), 1e-300), mu=mu, x=x, bonds=list(s0.bond_dims))
 
 
